@@ -120,7 +120,9 @@ func genWriterStream(r *Rng, api string, std bool) StreamSpec {
 }
 
 func genMalformed(r *Rng) StreamSpec {
-	switch r.Intn(10) {
+	switch r.Intn(11) {
+	case 10:
+		return StreamSpec{Kind: "synth", Synth: &SynthSpec{Seed: r.U64(), Blocks: 2, Kinds: "M"}}
 	case 0:
 		return StreamSpec{Kind: "hex", Hex: hexs(r.Bytes(r.Pick([]int{0, 1, 2, 3, 5, 9, 30, 200, 5000})))}
 	case 1, 2, 3:
